@@ -393,27 +393,20 @@ theorem attrs_retext_LR (env : Env) : ∀ (attrs : List (Name × AttrSpec)),
   | [] => trivial
   | p :: ps => ⟨⟨rfl, (attrValue_retext_isSome f env p.2).symm⟩, attrs_retext_LR env ps⟩
 
-/-- `f` does not turn a value that `py:attrs` keeps into one it drops, or back -/
-def KeepsBlank (f : List Char → List Char) : Prop := ∀ s, (pyStrip (f s)).isEmpty = (pyStrip s).isEmpty
-
-theorem stripValue_retext (hf : KeepsBlank f) (x : Scalar) :
+/-- whether `py:attrs` keeps a value does not depend on its text (only `None` removes) -/
+theorem stripValue_retext (x : Scalar) :
     (stripValue (x.retext f)).isSome = (stripValue x).isSome := by
-  cases x with
-  | none => rfl
-  | str s => simp only [Scalar.retext, stripValue, pyStr, hf s]; by_cases h : (pyStrip s).isEmpty = true <;> simp [h]
-  | markup s => rfl
-  | num s => rfl
-  | obj s h => simp only [Scalar.retext, stripValue, pyStr, hf s]; by_cases h' : (pyStrip s).isEmpty = true <;> simp [h']
+  cases x <;> rfl
 
-theorem items_retext_LR (hf : KeepsBlank f) (env : Env) : ∀ (items : List (Name × Atom)),
+theorem items_retext_LR (env : Env) : ∀ (items : List (Name × Atom)),
     LR (OR (SR env (env.map (·.retext f))))
       (items.map fun p => (p.1, (stripValue (evalAtom env p.2)).map AttrSpec.static))
       ((items.map fun p => (p.1, p.2.retext f)).map fun p =>
         (p.1, (stripValue (evalAtom (env.map (·.retext f)) p.2)).map AttrSpec.static))
   | [] => trivial
   | p :: ps => by
-      refine ⟨⟨rfl, ?_⟩, items_retext_LR hf env ps⟩
-      have h := stripValue_retext f hf (evalAtom env p.2)
+      refine ⟨⟨rfl, ?_⟩, items_retext_LR env ps⟩
+      have h := stripValue_retext f (evalAtom env p.2)
       simp only [evalAtom_retext]
       cases h1 : stripValue (evalAtom env p.2) <;> cases h2 : stripValue ((evalAtom env p.2).retext f) <;>
         simp_all [SR, attrValue]
@@ -427,7 +420,7 @@ theorem applyPyAttrs_eq (env : Env) (attrib : List (Name × AttrSpec)) (items : 
   · rfl
   · congr 1
 
-theorem applyPyAttrs_retext_LR (hf : KeepsBlank f) (env : Env) (attrs : List (Name × AttrSpec))
+theorem applyPyAttrs_retext_LR (env : Env) (attrs : List (Name × AttrSpec))
     (items : List (Name × Atom)) :
     LR (PR (SR env (env.map (·.retext f)))) (applyPyAttrs env attrs items)
       (applyPyAttrs (env.map (·.retext f)) (attrs.map fun p => (p.1, p.2.retext f))
@@ -441,16 +434,16 @@ theorem applyPyAttrs_retext_LR (hf : KeepsBlank f) (env : Env) (attrs : List (Na
     rw [h1, h2]
     simp only [Bool.false_eq_true, ↓reduceIte]
     have hA := attrs_retext_LR f env attrs
-    have hI := items_retext_LR f hf env (i :: is)
+    have hI := items_retext_LR f env (i :: is)
     exact gOr_LR _ hA hI
 
-theorem applyPyAttrs_retext_names (hf : KeepsBlank f) (env : Env) (attrs : List (Name × AttrSpec))
+theorem applyPyAttrs_retext_names (env : Env) (attrs : List (Name × AttrSpec))
     (items : List (Name × Atom)) :
     (evalAttrs (env.map (·.retext f))
         (applyPyAttrs (env.map (·.retext f)) (attrs.map fun p => (p.1, p.2.retext f))
           (items.map fun p => (p.1, p.2.retext f)))).map (·.1)
       = (evalAttrs env (applyPyAttrs env attrs items)).map (·.1) :=
-  (evalAttrs_names_LR env _ (applyPyAttrs_retext_LR f hf env attrs items)).symm
+  (evalAttrs_names_LR env _ (applyPyAttrs_retext_LR f env attrs items)).symm
 
 end Attrs
 
@@ -726,12 +719,12 @@ theorem flatMap_skel (xs : List Scalar) (g g' : Scalar → List Ev)
     rw [h x (by simp), ih fun y hy => h y (List.mem_cons_of_mem _ hy)]
 
 mutual
-  theorem node_skel (hf : KeepsBlank f) : ∀ (n : Node) (env : Env),
+  theorem node_skel : ∀ (n : Node) (env : Env),
       skelOf (expectedNode (env.map (·.retext f)) (n.retext f)) = skelOf (expectedNode env n)
     | .lit s, env => rfl
     | .site e, env => by simpa [Node.retext, expectedNode] using site_skel f env e
     | .el t attrs pa kids, env => by
-        have hk := list_skel hf kids env
+        have hk := list_skel kids env
         cases pa with
         | none =>
           have ha := (evalAttrs_names_LR env _ (attrs_retext_LR f env attrs)).symm
@@ -739,7 +732,7 @@ mutual
             List.map_nil, Ev.sk] at hk ⊢
           rw [ha, hk]
         | some items =>
-          have ha := applyPyAttrs_retext_names f hf env attrs items
+          have ha := applyPyAttrs_retext_names f env attrs items
           simp only [Node.retext, Option.map_some, expectedNode, skelOf, List.map_cons, List.map_append,
             List.map_nil, Ev.sk] at hk ⊢
           rw [ha, hk]
@@ -747,21 +740,21 @@ mutual
         simp only [Node.retext, expectedNode, evalV_retext, itemsOf_retext]
         apply flatMap_skel
         intro x _
-        have := list_skel hf kids (x :: env)
+        have := list_skel kids (x :: env)
         simpa [map_cons_retext] using this
     | .bind a kids, env => by
-        have := list_skel hf kids (evalAtom env a :: env)
+        have := list_skel kids (evalAtom env a :: env)
         simpa [Node.retext, expectedNode, evalAtom_retext, map_cons_retext] using this
     | .cond b kids, env => by
         cases b with
         | false => simp [Node.retext, expectedNode]
-        | true => simpa [Node.retext, expectedNode] using list_skel hf kids env
-  theorem list_skel (hf : KeepsBlank f) : ∀ (ns : List Node) (env : Env),
+        | true => simpa [Node.retext, expectedNode] using list_skel kids env
+  theorem list_skel : ∀ (ns : List Node) (env : Env),
       skelOf (expectedList (env.map (·.retext f)) (Node.retextList f ns)) = skelOf (expectedList env ns)
     | [], _ => rfl
     | n :: ns, env => by
         simp only [Node.retextList, expectedList, skelOf_append]
-        rw [node_skel hf n env, list_skel hf ns env]
+        rw [node_skel n env, list_skel ns env]
 end
 
 end Main
